@@ -17,7 +17,7 @@ import (
 func main() {
 	rig.Quiet()
 	run := ev.New("C14", ev.ArgTier(), "exploration")
-	run.Rule("a case is one request sequence (5-200 reference-built requests mixing good calls, declared exceptions, unknown methods, malformed arguments, handler errors, handler TApplicationExceptions and oneways) run against a fresh server: one simple-server connection (pipe, tcp; lock-step or pipelined), 1-16 concurrent simple-server connections, HTTP with 1-32 concurrent posts (one request in four announcing a response limit which its reply fills to 50-100%, others a limit the reply exceeds; fixed probes: 2400 posts by 24 posters with kept-open connections to one handler function, reply sizes differing from post to post; every 200 body must be a frame whose size bytes count what follows), the NATS server with 1-8 workers and 1-4 client connections, and a server that processes one connection's frames concurrently through one shared output protocol; all three protocols. Distinct = (leg, protocol, mode, kind sequence).")
+	run.Rule("a case is one request sequence (5-200 reference-built requests mixing good calls, declared exceptions, unknown methods, malformed arguments, handler errors, handler TApplicationExceptions and oneways) run against a fresh server: one simple-server connection (pipe, tcp; lock-step or pipelined), 1-16 concurrent simple-server connections, HTTP with 1-32 concurrent posts (one request in four announcing a response limit which its reply fills to 50-100%, others a limit the reply exceeds; fixed probes: 2400 posts by 24 posters with kept-open connections to one handler function, reply sizes differing from post to post; every 200 body must be a frame whose size bytes count what follows), the NATS server with 1-8 workers and 1-4 client connections (fixed probes: reply sizes around the 1 MiB output limit byte by byte; handlers whose response headers end 0-5000 bytes below that limit combined with handler error, TApplicationException, declared exception, success and an oversize result), and a server that processes one connection's frames concurrently through one shared output protocol; all three protocols. Distinct = (leg, protocol, mode, kind sequence).")
 	run.Assume("Apache Thrift's plain protocols (the reference writer/reader use only their primitive Read*/Write* calls), nats-server, net/http; the emitted processor and recording handler are the code under observation")
 	run.Assume("after malformed arguments on a stream connection nothing more is asserted about that connection (false-alarm guard of the design); a failing oneway may be answered or not; frames without _opid are C05's")
 
@@ -152,6 +152,19 @@ func main() {
 			mark("S", s)
 			res := runSequence(s, broker)
 			run.Add("probe_sequences", 1)
+			record(s, res)
+		}
+	}
+	if only < 0 || only >= 5*probeBase {
+		// NATS: handlers whose response headers leave 0 ... a few hundred bytes of the output limit
+		for _, s := range hdrRoomProbes(5 * probeBase) {
+			if only >= 0 && s.id != only {
+				continue
+			}
+			mark("S", s)
+			res := runSequence(s, broker)
+			run.Add("probe_sequences", 1)
+			run.Add("probe_requests_with_response_headers_near_output_limit", len(s.reqs)/2)
 			record(s, res)
 		}
 	}
